@@ -710,7 +710,7 @@ pub fn lru_walk() -> Part {
 
 pub fn run(property: &'static str, tier: Tier, started: Instant) -> Vec<Part> {
     let props = [property];
-    let depth = tier.pick(5usize, 7usize);
+    let depth = tier.pick(5usize, 6usize);
     let depth2 = tier.pick(5usize, 6usize);
     let budget = tier.pick(55u64, 3500u64);
     let mut parts = vec![];
